@@ -41,6 +41,8 @@ for sha, props in PLAN:
                     pass
             entry["checks"][pid] = {"rc": r.returncode, "violations": len(vio), "nofail": sum("no-failing-input-found" in l for l in vio), "kinds": kinds[:4]}
     sh("git -C /repo checkout -- . ; rm -f /tmp/rev_%s.patch" % sha)
+    if not entry["applied"] and sha in res and res[sha].get("note"):
+        entry = res[sha]          # keep the hand-made record (reverted together with a later commit)
     res[sha] = entry
     json.dump([res[k] for k, _ in PLAN if k in res], open(OUT, "w"), indent=1)
     print(sha, subj[:50], {k: (v["rc"], v["violations"], v["nofail"]) for k, v in entry["checks"].items()}, flush=True)
